@@ -318,7 +318,9 @@ func genCase(t *rapid.T) mcase {
 			c.Setup[d] = l
 		}
 	}
-	skip := rapid.SampledFrom([]any{nil, nil, false, true, "reason", "false"})
+	// (skip reasons may mention matrix tokens, like any string of a step: a REJECTED permutation must
+	// still leave them exactly as written)
+	skip := rapid.SampledFrom([]any{nil, nil, false, true, "reason", "false", "no {{matrix}} agents yet", "broken on {{matrix.a}} / {{ matrix.b }}", "{{matrix.os}}"})
 	na := rapid.IntRange(0, 4).Draw(t, "na")
 	if rapid.IntRange(0, 19).Draw(t, "manyadj") == 0 {
 		na = rapid.IntRange(9, 70).Draw(t, "namany")
